@@ -113,7 +113,8 @@ def fault_case(seed, target_len, shift):
     lo = len(logical[:pos_fault - 1].rstrip()) + 1
     lo = min(lo, pos_fault)
     # surroundings
-    before = rnd.choice([[], ['# comment'], ['# comment', 'a0 = 1', ''], ['# comment', 'a0 = 1', '', 'b0 = a0 + 1 \\', '    + 2']])
+    before = rnd.choice([[], ['# comment'], ['# comment', 'a0 = 1', ''], ['# comment', 'a0 = 1', '', 'b0 = a0 + 1 \\', '    + 2'],
+                         ['# form\x0cfeed', "s0 = 'line\u2028sep'", '# nel\x85'], ["s0 = 'vt\x0b fs\x1c'", '']])
     opener = {'elif': ['if a0:', 'b1 = 1'], 'jumpif': [], 'return': []}.get(kind, [])
     closer = {'if': ['endif'], 'elif': ['endif'], 'while': ['endwhile'], 'for': ['endfor']}.get(kind, [])
     # optionally split the faulty line with a continuation: the logical line is what the error must quote
@@ -188,6 +189,38 @@ def soup_case(seed):
     return cases
 
 
+SIMPLE = ['v1 = 1', 'v2 = v1 + 2', "systemLog('x')", 'lbl:', 'lbl2:', 'jump lbl', 'jumpif (v1) lbl2', 'return v1', 'return', "include 'a.bare'",
+          "include 'a.bare'", "include 'b/c.bare'", 'include <sys.bare>', 'include <sys.bare>', 'f1(v1, 2)', "v3 = 'a # b'", '# comment', '', '   ']
+
+
+def accounted_case(seed):
+    """only simple statements (repeated lines and repeated includes on purpose), blanks, comments, continuations, exotic characters
+    inside strings and comments: every logical line must be accounted for by one statement / include entry"""
+    rnd = random.Random(seed)
+    lines = []
+    for _ in range(rnd.randint(0, 10)):
+        ln = rnd.choice(SIMPLE)
+        if rnd.random() < 0.15 and ln and not ln.startswith('#') and ' ' in ln.strip():
+            i = ln.index(' ')
+            lines += [ln[:i] + ' \\', '    ' + ln[i + 1:]]
+            continue
+        if rnd.random() < 0.1:
+            ln = rnd.choice(["s9 = 'a" + rnd.choice(['\x0c', '\x0b', '\x85', '\u2028', '\x1c', '\r']) + "b'", '# c' + rnd.choice(['\x0c', '\u2028', '\x85']) + 'd'])
+        lines.append(ln)
+    text = rnd.choice(['\n', '\n', '\r\n']).join(lines)
+    from bare_script import parse_script, BareScriptParserError
+    c = json.loads(json.dumps(BASE))
+    try:
+        script = parse_script(text)
+        k = sum(len(s['include']['includes']) if 'include' in s else 1 for s in script['statements'])
+        c.update({'kind': 'accounted', 'outcome': 'model', 'k': k, 'text': A.cps(text), 'source': text[:300]})
+    except BareScriptParserError as exc:
+        c.update({'kind': 'accounted', 'outcome': 'BareScriptParserError: ' + exc.error, 'k': 0, 'text': A.cps(text), 'source': text[:300]})
+    except Exception as exc:  # pylint: disable=broad-except
+        c.update({'kind': 'accounted', 'outcome': type(exc).__name__, 'k': 0, 'text': A.cps(text), 'source': text[:300]})
+    return c
+
+
 def nesting_case(depth):
     lines = []
     for d in range(depth):
@@ -219,6 +252,9 @@ def canaries(case):
         return [c]
     if k == 'total':
         c['outcome'] = 'IndexError'
+        return [c]
+    if k == 'accounted' and case['outcome'] == 'model':
+        c['k'] += 1
         return [c]
     return []
 
@@ -259,6 +295,7 @@ def run(ctx, replay=None):
         cases += cs
     for cs in F.pmap(soup_case, [(ctx.seed * 17 + i,) for i in range(ctx.pick(3000, 60000))]):
         cases += cs
+    cases += F.pmap(accounted_case, [(ctx.seed * 23 + i,) for i in range(ctx.pick(2500, 50000))])
     F.judge(ctx, 'Trace_Lines', cases, canaries, cfg_consts='CONSTANT Dev = {}\n', key_fields=('kind', 'kinds', 'text', 'source', 'k'),
             describe=lambda c: {'kind': c['kind'], 'source': c['source'], 'outcome': c['outcome'] or c['o2'], 'error': c['err'].get('error'),
                                 'line_number': c['err'].get('lineNumber'), 'column': c['err'].get('column')},
